@@ -151,23 +151,34 @@ func cssParserDivergence(m *Model, el, style string) bool {
 	return true
 }
 
-// hasSyntaxEscape: does the style hold a hexadecimal escape (backslash, 1-6 hex digits) that stands
-// for one of ( ) [ ] { } " ' \ ; ?
+// hasSyntaxEscape: does the style hold, outside a quoted string, an escape (backslash + 1-6 hex
+// digits, or backslash + any other character) that stands for one of ( ) [ ] { } " ' \ ; ?
 func hasSyntaxEscape(style string) bool {
-	for i := 0; i+1 < len(style); i++ {
-		if style[i] != '\\' {
+	var inString byte
+	for i := 0; i < len(style); i++ {
+		c := style[i]
+		if c != '\\' {
+			switch {
+			case inString == 0 && (c == '"' || c == '\''):
+				inString = c
+			case c == inString:
+				inString = 0
+			}
 			continue
+		}
+		if i+1 >= len(style) {
+			break
 		}
 		j, v := i+1, 0
 		for j < len(style) && j < i+7 {
-			c := style[j]
+			d := style[j]
 			switch {
-			case c >= '0' && c <= '9':
-				v = v*16 + int(c-'0')
-			case c >= 'a' && c <= 'f':
-				v = v*16 + int(c-'a') + 10
-			case c >= 'A' && c <= 'F':
-				v = v*16 + int(c-'A') + 10
+			case d >= '0' && d <= '9':
+				v = v*16 + int(d-'0')
+			case d >= 'a' && d <= 'f':
+				v = v*16 + int(d-'a') + 10
+			case d >= 'A' && d <= 'F':
+				v = v*16 + int(d-'A') + 10
 			default:
 				goto done
 			}
@@ -175,12 +186,14 @@ func hasSyntaxEscape(style string) bool {
 		}
 	done:
 		if j == i+1 {
-			i++ // backslash + another character: skip both
-			continue
+			v = int(style[i+1]) // backslash + another character stands for that character
+			j = i + 2
 		}
-		switch v {
-		case '(', ')', '[', ']', '{', '}', '"', '\'', '\\', ';':
-			return true
+		if inString == 0 {
+			switch v {
+			case '(', ')', '[', ']', '{', '}', '"', '\'', '\\', ';':
+				return true
+			}
 		}
 		i = j - 1
 	}
